@@ -17,5 +17,7 @@ CONSTANTS
   ShardProcs = 0
   ShardFlips = 0
   InPlace = FALSE
+  Big = 0
+  PosWidth = 0
 INVARIANT FetchDesign
 INVARIANT Deviations
